@@ -685,6 +685,26 @@ def check(run):
                     idx.append(impl.add(G.pos_line(fr)))
         fresh = [impl.add(G.impl_line([c], atoms=frames[0])) for frames in runs]
         jobs.append(("plruns", {"case": c, "runs": runs, "starts": starts, "idx": idx, "fresh": fresh}, None, None))
+    # eigenvector with differenceVector / normalizeVector
+    for k in range(8 * scale):
+        c = gen_ref_case(r, "eigenvector")
+        if c is None:
+            continue
+        pr = c["params"]; n = len(pr["ref"])
+        pr["difference"] = 1 if k % 2 == 0 else 0
+        pr["normalize"] = 1 if k % 4 >= 1 else 0
+        if pr["difference"]:     # the vector is a second structure: the reference moved and deformed
+            Mq = G.quat_matrix(G.random_unit_quat(r)); tt = [V.dyadic(r, -3, 3) for _ in range(3)]
+            pr["vector"] = [[x + r.gauss(0, 0.5) for x in G.add(G.matvec(Mq, v), tt)] for v in pr["ref"]]
+        ids = G.dedup(c["groups"][0])
+        t = ["eigenvectorOpt", "1", "0", G.hx(0.0), G.hx(0.0), G.hx(0.0), "%d" % pr["difference"], "%d" % pr["normalize"], "%d" % n]
+        t += [G.hx(x) for v in pr["ref"] for x in v] + [G.hx(x) for v in pr["vector"] for x in v]
+        t += ["G", "%d" % n]
+        for i in ids:
+            t += ["%d" % (i - 1)] + [G.hx(x) for x in c["atoms"][i - 1]]
+        i = impl.add(G.impl_line([c])); m = mod.add(" ".join(t))
+        c["tol"] = 1e-7
+        jobs.append(("tie", [dict(c, comp="eigenvector:options")], i, m))
     # rmsd with atomPermutation (symmetry-adapted RMSD)
     for k in range(8 * scale):
         c = gen_ref_case(r, "rmsd")
